@@ -593,6 +593,11 @@ func runC07(w *vx.W) {
 			}
 		}
 	}
+	// (9) every file_id.type byte: whatever type Decode accepts must be a type Encode can write
+	for t := 0; t < 256; t++ {
+		parts := append(fitmodel.FileIdRecords(0, byte(t)), recordDef(1, false).Bytes(), recordData(1, false, 1000000000, 60, 5))
+		feed(fmt.Sprintf("file-type:%d", t), fitmodel.File(fitmodel.DefaultHeader, parts...), "")
+	}
 	// (6) corpus
 	for i, b := range crasherInputs() {
 		feed(fmt.Sprintf("crasher:%d", i), b, "")
